@@ -18,7 +18,7 @@ TIERS = {
 REQUIRED_BUCKETS = ['ref:unevaluated', 'ref:evaluated', 'ref:scoped-evaluated', 'ref:scoped-unevaluated', 'ref:macro', 'ref:in-list', 'ref:in-tuple', 'ref:in-dict-value',
                     'ref:as-dict-key', 'ref:depth3', 'graph:nested-provider', 'graph:scoped-outer-unscoped-inner', 'ambient:depth0', 'ambient:depth2+',
                     'override:positional', 'override:keyword', 'override:none', 'calls:3+', 'mutation:applied', 'delivered-fn-called',
-                    'override:keyword-on-evaluated-ref', 'override:positional-on-evaluated-ref', 'history:scoped-reference-left-by-BaseException']
+                    'override:keyword-on-evaluated-ref', 'override:positional-on-evaluated-ref', 'history:scoped-reference-left-by-BaseException', 'parsed-inside-a-scope', 'override:keyword-on-varkw-parameter']
 ORACLE_COUNTERS = ['oracle_evals', 'consumer_calls', 'provider_call_multisets_compared', 'mutation_snapshots_compared']
 _S = {}
 
@@ -107,8 +107,10 @@ def iter_cases(ctx, rng, n):
   for i in range(n):
     nparams = rng.choice([1, 2, 3])
     spec = {'shape': rng.choice(['fn', 'fn', 'init']), 'api': rng.choice(['configurable', 'register', 'external']),
-            'pos': ['p%d' % j for j in range(nparams)], 'dflt': [], 'varargs': False, 'kwonly': [], 'varkw': False}
+            'pos': ['p%d' % j for j in range(nparams)], 'dflt': [], 'varargs': False, 'kwonly': [], 'varkw': rng.random() < 0.35}
     trees = {'p%d' % j: gen_tree(rng, rng.choice([0, 1, 2, 3])) for j in range(nparams)}
+    if spec['varkw']:
+      trees['x0'] = gen_tree(rng, rng.choice([0, 1, 2]))   # a parameter only **kwargs can take
     graph = {'prov1': rng.choice([None, ['ref', 'prov0', [], True], ['ref', 'prov0', ['g1'], True]]),
              'prov2': rng.choice([None, None, ['ref', 'prov1', [], True], ['ref', 'prov1', ['g2'], True], ['list', [['ref', 'prov0', [], True], ['ref', 'prov1', [], False]]]])}
     macros = {'m0': rng.choice([['ref', 'prov0', [], True], ['ref', 'prov1', ['ms'], True], ['lit', [1, [2]]]]),
@@ -126,10 +128,12 @@ def iter_cases(ctx, rng, n):
           prefix = False
           if r < 0.45:
             over['p%d' % j] = 'kw'
+      if spec['varkw'] and rng.random() < 0.5:
+        over['x0'] = 'kw'
       calls.append({'ambient': ambient, 'over': over, 'mutate': rng.random() < 0.8, 'fn_scope': [rng.choice(['q', 'a'])] if rng.random() < 0.5 else [],
                     'interrupted_scoped_call_before': rng.random() < 0.15})
     yield {'spec': spec, 'trees': trees, 'graph': graph, 'macros': macros, 'calls': calls,
-           'bind_scope': rng.choice(['', '', 'a'])}
+           'bind_scope': rng.choice(['', '', 'a']), 'parse_scope': rng.choice([None, None, 'b', 'a/s1', 'zz'])}
 
 
 # ---- the model: walk a tree, produce the expected provider calls and the delivered shape
@@ -252,7 +256,13 @@ def run_case(ctx, case):
     lines.append('%s%s.%s = %s' % (pre, p.name, prm, tree_text(t)))
   lines.append('c1pre/c1cons.x = @leaked2/c1interrupt()')
   text = '\n'.join(lines) + '\n'
-  gin.parse_config(text)
+  if case.get('parse_scope'):
+    # the scope that happens to be open while the config is *parsed* is irrelevant: unscoped references run under the scope of the consuming call
+    ctx.bucket('parsed-inside-a-scope')
+    with gin.config_scope(case['parse_scope']):
+      gin.parse_config(text)
+  else:
+    gin.parse_config(text)
   feats = set()
   for t in case['trees'].values():
     feats |= tree_feats(t)
@@ -291,7 +301,8 @@ def run_case(ctx, case):
     applies = (not case['bind_scope']) or (ambient[:1] == [case['bind_scope']])
     P, K = [], {}
     exp_calls, exp_shapes = [], {}
-    for prm in spec['pos']:
+    params = spec['pos'] + (['x0'] if spec['varkw'] else [])
+    for prm in params:
       o = call['over'].get(prm)
       is_ev = 'ref:evaluated' in tree_feats(case['trees'][prm]) or 'ref:scoped-evaluated' in tree_feats(case['trees'][prm]) or 'ref:macro' in tree_feats(case['trees'][prm])
       if o == 'pos':
@@ -302,6 +313,8 @@ def run_case(ctx, case):
       elif o == 'kw':
         K[prm] = ['caller', prm]
         ctx.bucket('override:keyword')
+        if prm == 'x0':
+          ctx.bucket('override:keyword-on-varkw-parameter')
         if is_ev and applies:
           ctx.bucket('override:keyword-on-evaluated-ref')
       else:
@@ -318,6 +331,8 @@ def run_case(ctx, case):
     recs = probes.RECORDER.since(mark)
     ctx.count('consumer_calls')
     missing = [prm for prm in spec['pos'] if prm not in exp_shapes and call['over'].get(prm) is None]
+    if 'x0' in params and 'x0' not in exp_shapes and call['over'].get('x0') is None:
+      pass  # an unbound, unsupplied **kwargs name is simply absent
     if missing:
       ctx.check(isinstance(exc, TypeError), 'expected-TypeError', 'parameters %r unbound under %r but call gave %r' % (missing, ambient, exc))
       # providers of the parameters that *are* bound may legitimately have run before the TypeError
@@ -341,7 +356,9 @@ def run_case(ctx, case):
               'call %d under %r (overrides %r): providers ran as %r, model %r' % (ci, ambient, call['over'], got_calls, sorted(exp_calls)))
     if not ctx.check(len(cons) == 1, 'consumer-run-count', 'consumer ran %d times' % len(cons)):
       continue
-    received = cons[0].received
+    received = dict(cons[0].received)
+    if spec['varkw']:
+      received.update(received.get('**') or {})
     _S['last_recs'] = {}
     # map provider return objects to their records (returned lists are ["ret", pid, n]); identify via (pid, n)
     by_pn = {}
@@ -365,9 +382,10 @@ def run_case(ctx, case):
         for a, b in v.items():
           index(a)
           index(b)
-    for prm in spec['pos']:
+    present = [prm for prm in params if prm in received]
+    for prm in present:
       index(received[prm])
-    for prm in spec['pos']:
+    for prm in present:
       if prm in exp_shapes:
         fcalls_m, fcalls_g = [], []
         want = model_shape_called(exp_shapes[prm], call['fn_scope'], case, fcalls_m)
@@ -379,7 +397,7 @@ def run_case(ctx, case):
         ctx.check(received[prm] == ['caller', prm] and (received[prm] is (P + list(K.values()))[[x[1] for x in P + list(K.values())].index(prm)]),
                   'caller-value-replaced', 'caller value for %s replaced by %r' % (prm, received[prm]))
     if call['mutate']:
-      n = sum(mutate(received[prm]) for prm in spec['pos'])
+      n = sum(mutate(received[prm]) for prm in present)
       if n:
         ctx.bucket('mutation:applied')
   snap_after = (gin.config_str(), [canon(gin.query_parameter(k)) for k in keys],
